@@ -10,6 +10,7 @@ CONSTANTS
   MaxEvents = 1
   Dev <- NoDev
   Pairs2 = TRUE
+  NoDef <- NoDef0
 INVARIANT TypeOK
 INVARIANT PendingExact
 INVARIANT AfterAck
